@@ -415,7 +415,7 @@ def register_group_plots(ix):
     if iv is not None and "isdict(result)" not in iv.ensures:
         iv.ensures.append("isdict(result)")
     ix.add(Contract(
-        GP, "group_plots", props=["C19", "C10"], dict_model="Val", ghost={"ctx_lists": True},
+        GP, "group_plots", props=["C19", "C10"], dict_model="Val", ghost={"ctx_lists": True, "prune_defs": True},
         params={"group": "Lst[V]"}, result="Tuple[Lst[V],Dict]",
         ensures=[
             # `Return data parts of the group`: one per member, in order
@@ -445,9 +445,12 @@ def register_update_with_group(ix):
         W.format(c="old(context)"), W.format(c="new_grp_context[k]"))
     ANY_FALSE = "(%s == present(False) or any(%s == present(False) for k in range(len(new_grp_context))))" % (
         W.format(c="old(context)"), W.format(c="new_grp_context[k]"))
+    # (prune_defs: definitions a query does not use are left out of its script -- a conservative extension cannot turn a
+    #  satisfiable query unsatisfiable; two dictionary queries of these units needed 8..17 s with every definition in the
+    #  script and flipped to `undecided` on a busy machine)
     UPDATED = "upd_spec(old(context), diff_spec(inter_all(new_grp_context), old_inter_context, -1))"
     ix.add(Contract(
-        GP, "_update_with_group", props=["C19", "C10"], dict_model="Val", ghost={"ctx_lists": True},
+        GP, "_update_with_group", props=["C19", "C10"], dict_model="Val", ghost={"ctx_lists": True, "prune_defs": True},
         params={"context": "Dict", "new_grp_context": "Lst[Val]", "old_inter_context": "Val"}, result=None,
         requires=["isdict(context)", "isdict(old_inter_context)",
                   "all(isdict(new_grp_context[k]) for k in range(len(new_grp_context)))"],
